@@ -84,17 +84,21 @@ func VerifC03_DeadCode() {
 	verifrt.Cover("ran")
 }
 
-// VerifC03_ReservedIndexEncodings: the reserved memory-index bytes of memory.size / memory.grow / memory.fill / memory.copy
+// VerifC03_ReservedIndexEncodings: the reserved memory-index bytes of memory.size / memory.grow / memory.fill / memory.copy / memory.init
 // written canonically (00) or as an over-long LEB128 zero (80 00, 80 80 00), in every combination: whatever the validator
 // decides, an ACCEPTED module is decoded by both engines exactly as it was validated - the interpreter and the compiler
 // front end run it and return the specified value (42). (Validator and engines must agree on how many bytes an
 // immediate occupies.)
-//verif:opts split=op:4
+//verif:opts split=op:5
 func VerifC03_ReservedIndexEncodings() {
 	encs := [][]byte{{0x00}, {0x80, 0x00}, {0x80, 0x80, 0x00}}
 	e1 := encs[verifrt.Choose("enc1", 3)]
 	var body []byte
-	switch verifrt.Choose("op", 4) {
+	passive := false
+	switch verifrt.Choose("op", 5) {
+	case 4: // memory.init(0, 0, 0) of passive segment 0
+		passive = true
+		body = cat(i32const(0), i32const(0), i32const(0), []byte{0xfc, 0x08, 0x00}, e1)
 	case 0: // memory.size ; drop
 		body = cat([]byte{0x3f}, e1, []byte{0x1a})
 	case 1: // memory.grow(0) ; drop
@@ -109,12 +113,20 @@ func VerifC03_ReservedIndexEncodings() {
 	spec := &interpreter.VerifModuleSpec{HasMem: true, MemMin: 1, MemMax: 2,
 		Funcs: []interpreter.VerifFuncSpec{{Params: []byte{i32}, Results: []byte{i32}, Body: body, Export: "f"}}}
 	bin := interpreter.VerifEncode(spec)
+	if passive {
+		bin = interpreter.VerifAddPassiveData(bin, []byte{1, 2, 3})
+	}
 	resI, trapI, _, _, ok := interpreter.VerifInterpRun(bin, "f", nil, 2, []uint64{0})
 	if !ok {
 		verifrt.Cover("rejected")
 		return
 	}
 	verifrt.Assert(trapI == interpreter.VTrapNone && len(resI) == 1 && resI[0] == 42, "interpreter: an accepted module runs as it was validated")
+	if passive {
+		// the reference SSA evaluator does not model data instances: memory.init is compared on the interpreter only
+		verifrt.Cover("accepted")
+		return
+	}
 	w, err := vCompile(bin, false, false)
 	verifrt.Assert(err == nil, "a module the validator accepts is accepted by the compiler front end")
 	if err != nil {
